@@ -214,7 +214,14 @@ func (node *harness) NextAction(ctx context.Context, flow Flow) chan IAction {
 
 	response := make(chan chan IAction, 1)
 	node.mch <- nextHarnessActionMessage{flow: flow, response: response}
-	return <-response
+	select {
+	case out := <-response:
+		return out
+	case <-ctx.Done():
+		// the harness may have left without answering; the token's own
+		// select observes the cancellation
+		return make(chan IAction)
+	}
 }
 
 func (node *harness) Element() schema.FlowNodeInterface { return node.activity.Element() }
